@@ -160,6 +160,26 @@ def check_locations(ctx, name):
             ctx.violation('contents differ: by name vs %s' % how, case, {})
             return
     ctx.count('extra_loading_routes_compared', 3)
+    # the SAME relative spelling from inside another database's directory,
+    # in this very process: must be that other database
+    other = libs.LIBS[(libs.LIBS.index(name) + 1) % len(libs.LIBS)]
+    try:
+        os.chdir(os.path.join(libs.data_dir(), other))
+        c3 = observe(libs.fresh, os.path.join('.', 'library.yaml'))
+    finally:
+        os.chdir(cwd)
+    ctx.evals()
+    ref_other = observe(libs.fresh, other)
+    if 'exc' in c3 or 'exc' in ref_other or digests.library_digest(
+            c3['ok']) != digests.library_digest(ref_other['ok']) or \
+            digests.digest_of(digests.scheme_state(c3['ok'].scheme)) != \
+            digests.digest_of(digests.scheme_state(ref_other['ok'].scheme)):
+        ctx.violation('./library.yaml loaded from inside another database\'s '
+                      'directory (same spelling, same process) is not that '
+                      'database', dict(case, other=other),
+                      {'outcome': c3.get('exc', 'loaded')})
+        return
+    ctx.count('same_relative_spelling_other_directory')
     rep, dst, err = relocated_report([name])
     ctx.evals()
     if rep is None:
